@@ -1009,7 +1009,7 @@ def clean(lines):
             break
 
 
-def drive(run, profile, nscripts, nops, theorem_pid=None, asan=False, reopen=False, extra_check=None, audit=False, geometry=0, boundary=0, bigfile=0, slack=True, destroy=0, thin=0):
+def drive(run, profile, nscripts, nops, theorem_pid=None, asan=False, reopen=False, extra_check=None, audit=False, geometry=0, boundary=0, bigfile=0, slack=True, destroy=0, thin=0, uplink=0):
     """common body of the KV checks"""
     proofs_ok = run.proofs(theorem_pid or run.pid)
     impl = vlib.build_harness("h_kv", "asan" if asan else "plain")
@@ -1046,6 +1046,10 @@ def drive(run, profile, nscripts, nops, theorem_pid=None, asan=False, reopen=Fal
             rng = run.rng.fork()
             ls, meta = thin_script(rng, os.path.join(work, "t%d.db" % n), wal=rng.below(2))
             scripts.append(("thin%d" % n, ls, meta))
+        for n in range(uplink or 0):
+            rng = run.rng.fork()
+            ls, meta = uplink_script(rng, os.path.join(work, "u%d.db" % n), wal=rng.below(2))
+            scripts.append(("uplink%d" % n, ls, meta))
         for n in range(destroy or 0):
             rng = run.rng.fork()
             ls, meta = destroy_script(rng, os.path.join(work, "d%d.db" % n), wal=rng.below(2))
@@ -1325,6 +1329,45 @@ def thin_script(rng, path, wal=0):
         L.append("get 0 %s 0" % hexb(b"k%05d" % i))
     L += ["dump 0", "struct 0", "dump 1", "sync", "close", "open %s %d 0 0 0" % (path, wal), "db 0 1 000", "db 1 2 000", "dump 0", "dump 1", "getmeta 1 10000", "close"]
     return L, {"modes": ["000", "000"], "wal": wal}
+
+
+def uplink_script(rng, path, wal=0):
+    """cursors parked on nodes of every level; then runs of adjacent new keys split nodes elsewhere, each new node with a
+    forced level, so that the parked nodes are predecessors of new nodes at upper levels (or lose such a successor when a
+    run is deleted again); then every cursor writes through its node copy (set / delete) and the structure is walked."""
+    L = ["open %s %d 0 1 0" % (path, wal), "db 0 1 000"]
+    n = rng.choice([60, 100, 160])
+    idx = list(range(n))
+    if rng.chance(1, 2):
+        for i in range(len(idx) - 1, 0, -1):
+            j = rng.below(i + 1)
+            idx[i], idx[j] = idx[j], idx[i]
+    for i in idx:
+        if rng.chance(1, 6):
+            L.append("level %d" % rng.choice([0, 1, 1, 2, 3]))
+        L.append("put 0 %s 0 %s 0 0" % (hexb(b"k%03d" % i), hexb(rng.bytes(rng.choice([2, 2, 30])))))
+    ncur = rng.choice([1, 2, 3])
+    for c in range(ncur):
+        L += ["copen %d 0 5 %s 0" % (c, hexb(b"k%03d" % rng.below(n))), "cget %d" % c]
+    for _ in range(rng.choice([1, 2, 3])):
+        base = rng.below(n)
+        run = rng.choice([20, 40, 70])
+        for j in range(run):
+            if rng.chance(1, 3):
+                L.append("level %d" % rng.choice([1, 1, 2, 3]))
+            L.append("put 0 %s 0 %s 0 0" % (hexb(b"k%03d.%02d" % (base, j)), hexb(rng.bytes(2))))
+        if rng.chance(1, 3):
+            for j in range(run):
+                L.append("del 0 %s 0" % hexb(b"k%03d.%02d" % (base, j)))
+    for c in range(ncur):
+        how = rng.choice(["cset", "cdel", "cset"])
+        L.append("cset %d %s 0" % (c, hexb(rng.bytes(rng.choice([1, 40, 300])))) if how == "cset" else "cdel %d" % c)
+        L.append("cget %d" % c)
+    L += ["struct 0", "sync", "dump 0", "rdump 0"]
+    for c in range(ncur):
+        L.append("cclose %d" % c)
+    L += ["close", "open %s %d 0 0 0" % (path, wal), "db 0 1 000", "dump 0", "struct 0", "close"]
+    return L, {"modes": ["000"], "wal": wal}
 
 
 def destroy_script(rng, path, wal=0):
